@@ -100,6 +100,12 @@ func C14(tier string) int {
 			}
 		}
 	}
+	if maxN < 4 {
+		// the quick tier still sees some placements of two two-qubit gates on 4 qubits (all 24 in the thorough tier)
+		for _, g := range [][]string{{"cx q0 q2", "dcnot q1 q3"}, {"cz q3 q1", "cx q2 q0"}, {"iswap q1 q2", "cz q0 q3"}, {"cx q0 q1", "cx q2 q3"}, {"dcnot q3 q0", "iswap q2 q1"}, {"cx q0 q3", "cz q1 q2"}} {
+			add(4, g)
+		}
+	}
 	// whole circuits: layering and the software simulation
 	circuits := []struct {
 		n int
